@@ -154,8 +154,15 @@ func runUFrames(w *bufio.Writer, seed uint64, n int, _ []string) {
 		var payload []byte
 		var err error
 		consumed, pan := withScript(r, mseed, func() { payload, err = build(data, base) })
-		nframes := int(f.MaxPING) + int(f.MaxCRYPTO) + int(f.MaxPADDING) + 12
-		us := u32Stream(mseed, nframes)
+		// the shuffle draws one uint32 per frame (plus rare rejections): an upper bound of
+		// the frame count is enough oracle
+		nframes := int(f.MaxPING) + int(f.MaxCRYPTO) + int(f.MaxPADDING)
+		if err == nil && pan == nil {
+			if _, fc := checkCover([][]byte{payload}, data, base, false); fc.ping+fc.crypto+fc.padBytes < nframes {
+				nframes = fc.ping + fc.crypto + fc.padBytes
+			}
+		}
+		us := u32Stream(mseed, nframes+10)
 		detail := func() string {
 			return fmt.Sprintf("rf=%+v multi=%v idx=%d len=%d base=%d data=%x rand=%x mseed=%d", f, multi, idx, dlen, base, data, consumed, mseed)
 		}
